@@ -65,6 +65,8 @@ def _stmts(depth, dim, top=False):
     exc = st.one_of(st.builds(lambda o: {"s": "badwrite", "o": o}, idx),
                     # a constructor call that the library refuses (non-square data), caught by the program
                     st.just({"s": "badctor"}),
+                    # an operator of another dimension read inside a context: refused, must leave no trace
+                    st.just({"s": "badread"}),
                     st.builds(lambda n: {"s": "raise", "levels": n}, st.sampled_from([1, 1, 2])))
     # weights: exceptional statements end a block, keep them rare (about one in twelve leaves)
     leaf = st.integers(0, 13).flatmap(
@@ -247,6 +249,7 @@ class Machine(object):
             obj = Obj(kind, live, ref, {"Ks0": Ks0, "rates": rates})
         else:
             val = _value(kind, data, dim, self.cplx, flag, degenerate)
+            split_jr = None
             if kind == "op":
                 live = Operator(data=val.copy())
             elif kind == "sa":
@@ -254,6 +257,13 @@ class Machine(object):
             elif kind == "ham":
                 with qr.energy_units("int"):
                     live = qr.Hamiltonian(data=val.copy())
+                    if flag == 2 and not inside and not self.cplx:
+                        # weak couplings split off (remove_cutoff_coupling): the remainder travels with the object
+                        cut = 0.15
+                        live.remove_cutoff_coupling(cut)
+                        jr = numpy.where((numpy.abs(val) < cut) & ~numpy.eye(dim, dtype=bool), val, 0.0)
+                        val = val - jr
+                        split_jr = jr
             elif kind == "dm":
                 live = (ReducedDensityMatrix if flag % 2 else DensityMatrix)(data=val.copy())
             elif kind == "tdm":
@@ -268,6 +278,9 @@ class Machine(object):
                 live.dim = dim
                 live.data = val.copy()
             obj = Obj(kind, live, self.to_outer(val, kind))
+            if kind == "ham" and split_jr is not None:
+                obj.extra["JR"] = numpy.array(split_jr, dtype=complex)
+                self.ctx.label("create:ham-with-remainder-coupling")
         if inside:
             self.created_inside += 1
             obj.touched_inside = True
@@ -316,6 +329,12 @@ class Machine(object):
         want = self.cur(obj.ref, obj.kind)
         if not ctx.close(clause, got, want, rtol=1e-9, scale=self.scale(obj.ref), where=where, depth=len(self.T) - 1):
             self.dead = True
+            return
+        if obj.kind == "ham" and obj.extra.get("JR") is not None and getattr(obj.live, "_has_remainder_coupling", False):
+            # the split-off couplings are presented in the same basis as the Hamiltonian itself
+            if not ctx.close(clause, numpy.array(obj.live.JR), self.cur(obj.extra["JR"], "ham"), rtol=1e-9, scale=1.0,
+                             where=where + "/remainder-coupling", depth=len(self.T) - 1):
+                self.dead = True
 
     # -- statements -------------------------------------------------------------
     def pick(self, i, kinds, as_context=False):
@@ -400,6 +419,21 @@ class Machine(object):
                 return
             obj.live.data = "this is not an array"      # the library raises TypeError, which leaves the context
             ctx.fail("badwrite-accepted", obj.kind)
+        elif s == "badread":
+            from quantarhei.qm import Operator
+            if not hasattr(self, "alien"):
+                return
+            ctx.label("badread:inside" if len(self.T) > 1 else "badread:outside")
+            if len(self.T) > 1:
+                try:
+                    self.alien.data
+                    ctx.fail("badread-accepted", "op")
+                except Exception:
+                    pass
+            else:
+                # outside any context the alien operator reads as it was created
+                if not numpy.array_equal(numpy.array(self.alien.data), self.alien_ref):
+                    ctx.fail("outside-value", "alien-operator")
         elif s == "badctor":
             from quantarhei.qm import Operator
             ctx.label("badctor:inside" if len(self.T) > 1 else "badctor:outside")
@@ -468,6 +502,14 @@ class Machine(object):
             for _ in range(nt - 1):
                 v = Tm @ v
                 ref.append(v.reshape(dim, dim))
+            if stm["r"] % 2 == 1:
+                # the same content as a plain DensityMatrixEvolution (created in the current basis)
+                from quantarhei.qm.propagators.dmevolution import DensityMatrixEvolution
+                from quantarhei.qm import DensityMatrix
+                plain = DensityMatrixEvolution(ta, DensityMatrix(data=numpy.array(rt.data[0])))
+                plain.data = numpy.array(rt.data)
+                rt = plain
+                ctx.label("prop:plain-evolution")
             new = Obj("evol", rt, numpy.array(ref))
             new.touched_inside = len(self.T) > 1
             if len(self.T) > 1:
@@ -590,6 +632,9 @@ class Machine(object):
 def check_case(case, ctx):
     import quantarhei as qr
     m = Machine(case, ctx, qr)
+    from quantarhei.qm import Operator
+    m.alien_ref = numpy.arange(float((case["dim"] + 1) ** 2)).reshape(case["dim"] + 1, case["dim"] + 1)
+    m.alien = Operator(data=m.alien_ref.copy())
     kinds = ["op", "sa", "ham", "dm"]
     for kind, data in zip(kinds, case["base"]):
         m.create(kind, data, 1, case["degenerate"] if kind == "sa" else 0)
@@ -604,5 +649,10 @@ def check_case(case, ctx):
             ctx.fail("bookkeeping-restored", "final", basis=qr.Manager().get_current_basis())
         for o in m.pool:
             m.read(o, "restored-after-exit", where=o.kind + "/final")
+        try:
+            if not numpy.array_equal(numpy.array(m.alien.data), m.alien_ref) or m.alien.get_current_basis() != 0:
+                ctx.fail("restored-after-exit", "alien-operator/final")
+        except Exception as e:
+            ctx.fail("restored-after-exit/read-raises", "alien-operator/final", exc=type(e).__name__, msg=str(e)[:120])
     ctx.mark_nontrivial((m.depth_max >= 2 or m.exceptional_exits >= 1) and m.created_inside >= 1
                         and m.first_reads_inside >= 1)
